@@ -3,6 +3,7 @@ package modules
 // C05 harnesses: stopping a module waits for all of its managed work.
 
 import (
+	"container/list"
 	"context"
 	"errors"
 	"sync/atomic"
@@ -287,7 +288,7 @@ func VerifC05_WorkLaunchedBeforeStart() {
 	rep := <-reports
 	if !fromPrep {
 		rt.Assert(rep.err != nil, "prestart/first-start-fails")
-		rt.Yield() // work launched by the failed attempt may begin now
+		rt.Yield()       // work launched by the failed attempt may begin now
 		m.start(reports) // the retry (as a later management pass would do)
 		rep = <-reports
 	}
@@ -482,4 +483,66 @@ func VerifC05_EventHook() {
 	}
 	rt.Assert(source.Status() == StatusOnline, "eventhook/source-module-untouched")
 	rt.Reach("eventhook-end")
+}
+
+// ---- a task that the queue handler is just about to start while the module
+// is stopped (G2, preemptions at synchronisation operations): it either counts
+// as running work the stop waits for, or it is not executed - it never runs
+// after the stop was reported ----
+
+func VerifC05_TaskStartedDuringStop() {
+	rt.NoTimers()
+	rt.SchedYieldOnly(true)
+	rt.Preemptions(1)
+	rt.PreemptedRunLast(true) // the preempted goroutine resumes when the others have blocked
+	SetStdErrReporting(false)
+	c05Reset()
+	// task queue state as in the C07 harnesses
+	sleepMode.UnSet()
+	taskQueue = list.New()
+	prioritizedTaskQueue = list.New()
+	taskSchedule = list.New()
+	if rt.Symbolic() {
+		taskQueueHandlerStarted.UnSet()
+		taskScheduleHandlerStarted.UnSet()
+	}
+	for len(queueIsFilled) > 0 {
+		<-queueIsFilled
+	}
+	moduleStopTimeout = time.Hour
+	m := initNewModule("m", nil, nil, func() error { return nil })
+	m.status = StatusOnline
+	close(m.startComplete)
+	stopReported := false
+	ranAfterReport := false
+	running := false
+	t := m.NewTask("t", func(ctx context.Context, _ *Task) error {
+		running = true
+		if stopReported {
+			ranAfterReport = true
+		}
+		rt.Yield()
+		running = false
+		return nil
+	}).MaxDelay(0)
+	t.Queue()
+	go func() {
+		for {
+			taskTimeslot <- struct{}{}
+		}
+	}()
+	go taskQueueHandler()
+	rt.Yield() // (the time slot server reaches its send)
+	rt.Yield() // the handler may be anywhere in starting the task
+	reports := make(chan *report, 1)
+	m.stop(reports)
+	rep := <-reports
+	stopReported = true
+	rt.Assert(rep.err == nil, "taskduringstop/stop-ok")
+	rt.Assert(!running, "taskduringstop/no-task-running-at-the-stop-report")
+	rt.Yield()
+	rt.Yield()
+	rt.Yield()
+	rt.Assert(!ranAfterReport, "taskduringstop/task-never-starts-after-the-stop-report")
+	rt.Reach("taskduringstop-end")
 }
